@@ -150,7 +150,10 @@ def build(inst, rnd=None):
             import numpy as np
             val = np.float64(val)              # load functions written with numpy (np.sin, np.exp ...) return numpy scalars: the
                                                # documentation's own examples do; every derived quantity then holds numpy scalars
-        ret = Torque(val, 'Nm').to(tq_unit)
+        cyc = inst.get('load_unit_cycle')
+        # a load function may answer in whatever torque unit it likes, and not in the same one every time (a look-up table in
+        # mNm for one regime, a formula in Nm for another): the histories then hold samples of mixed units
+        ret = Torque(val, 'Nm').to(cyc[len(calls) % len(cyc)] if cyc else tq_unit)
         calls.append({'at': len(pt_holder[0].time) if pt_holder else 0, 't': si_of(time, 'Time'), 'pos': si_of(angular_position), 'spd': si_of(angular_speed),
                       'ret': si_of(ret)})
         return ret
@@ -394,6 +397,32 @@ def _tables_never_fail(pt):
     return {'snap': errs, 'export': e or ''}
 
 
+def _snap_tables(pt):
+    """snapshot tables in default units at (up to 40 of) the recorded instants and between the last two: per element {column: [one value per queried instant]}"""
+    import contextlib, io
+    from gearpy.units import Time
+    t1, t2 = pt.time[-1], pt.time[-2]
+    mid = Time((t1.to('sec').value + t2.to('sec').value) / 2, 'sec')
+    out = [dict() for _ in pt.elements]
+    n = len(pt.time)
+    idx = list(range(n)) if n <= 40 else sorted({round(k * (n - 1) / 39) for k in range(40)})
+    targets = [pt.time[k] for k in idx] + [mid]        # (a column's samples along the history share the history's scale: a zero crossing is not an alarm)
+    for tq in targets:
+        with contextlib.redirect_stdout(io.StringIO()):
+            df, e = outcome(lambda: pt.snapshot(target_time=tq, print_data=False))
+        if e is not None:
+            return []
+        for i, o in enumerate(pt.elements):
+            for c in df.columns:
+                try:
+                    f = float(df.loc[o.name, c])
+                except (TypeError, ValueError, KeyError):
+                    continue
+                if f == f and abs(f) != float('inf'):
+                    out[i].setdefault('snap ' + str(c), []).append(rstr(f))
+    return [{k: v for k, v in d.items() if len(v) == len(targets)} for d in out]
+
+
 class RunawayRun(Exception):
     """raised by the harness when a run records far more instants than requested (or takes far too long)"""
 
@@ -449,6 +478,8 @@ def execute(tid, inst, rnd=None):
     def close_epoch():
         time, hist, kinds_ok = read_hist(pt)
         epochs.append({'time': time, 'hist': hist, 'kinds_ok': kinds_ok})
+        if inst.get('record_snap') and len(pt.time) >= 2:
+            epochs[-1]['snap'] = _snap_tables(pt)          # C07: the tables, too, are results (compared between presentations)
         elems_by_epoch.append(elems_now())          # relations may be re-declared between epochs
     for op in inst['ops']:
         k = op['op']
